@@ -19,12 +19,14 @@ def stop_case(draw):
   stop_at = draw(st.integers(0, 8)) * 0.25
   timed = {str(stop_at): [list(x) for x in draw(st.lists(st.tuples(st.integers(0, 5), st.integers(1, 40)),
                                                          max_size=6))]}
-  return {"sources": sources, "stop_from": draw(st.sampled_from(["outside", "outside", "handler", "other_handler"])),
+  never = draw(st.integers(0, 7)) == 0        # the object arms its timers but is never started
+  return {"never_started": never,
+          "sources": sources, "stop_from": "outside" if never else draw(st.sampled_from(["outside", "outside", "handler", "other_handler"])),
           "stop_at": stop_at, "timed_schedule": timed,
           "posts_before": draw(st.integers(0, 3)), "posts_with_stop": draw(st.integers(0, 2)),
-          "slow_step": draw(st.sampled_from([0.0, 0.0, 0.3, 1.0, 1.5, 3.0, 12.0])),
+          "slow_step": 0.0 if never else draw(st.sampled_from([0.0, 0.0, 0.3, 1.0, 1.5, 3.0, 12.0])),
           "slow_arms": draw(st.booleans()),     # the slow handler ends by arming a timed source
-          "crash": draw(st.integers(0, 4)) == 0,  # a handler raises: the thread is gone before stop() is called
+          "crash": (not never) and draw(st.integers(0, 4)) == 0,  # a handler raises: the thread is gone before stop() is called
           "same_name": draw(st.integers(0, 3)) == 0,  # the other object carries the same name
           "live": draw(st.sampled_from([None, None, "spy", "trace", "both"])),   # the stopped object prints live
           "schedule": [list(x) for x in draw(schedule_st)]}
@@ -40,7 +42,7 @@ class C12(Prop):
   thorough_examples = 4000
   rule = ("Generated scenarios under the deterministic scheduler and virtual clock: an ActiveObject "
           "with 0-3 timed sources (periods 0.25-1.0, endless or 4 shots, over three signal names), a second ActiveObject "
-          "subscribed to a signal, plain posts queued before the stop, optionally live spy/trace output switched on for the object that is stopped, optionally a handler that raises (so the "
+          "subscribed to a signal, plain posts queued before the stop, one case in eight an object that armed its timers but was never started, optionally live spy/trace output switched on for the object that is stopped, optionally a handler that raises (so the "
           "object's thread has already ended when stop() is called from outside), optionally a handler "
           "that takes 0.3-12 s of virtual time and is running when stop() is called; stop() is called at a "
           "generated virtual instant (a multiple of 0.25, so it often coincides with a timer firing "
@@ -111,7 +113,8 @@ class C12(Prop):
       chart._vf_key, other._vf_key = "ao1", "ao2"
       other.subscribe(Event(signal=signals["VC"]))
       other.start_at(fn2)
-      chart.start_at(fn)
+      if not case.get("never_started"):
+        chart.start_at(fn)
       s.quiesce()
       t0 = s.now
       for k, src in enumerate(case["sources"]):
@@ -132,10 +135,13 @@ class C12(Prop):
       info["in_step"] = in_step
       if case["stop_from"] == "outside":
         info["stop_inv"] = s.steps
-        chart.stop()
+        try:
+          chart.stop()
+        except Exception as ex:
+          info["stop_raised"] = "%s: %s" % (type(ex).__name__, ex)
         info["stop_ret"] = s.steps
         info["stop_now"] = s.now
-        info["alive_after"] = chart.thread.is_alive()
+        info["alive_after"] = chart.thread is not None and chart.thread.is_alive()
       elif case["stop_from"] == "other_handler":
         other.post_fifo(Event(signal=signals["VSTOP"], payload=0))
       else:
@@ -143,7 +149,7 @@ class C12(Prop):
       for j in range(case["posts_with_stop"]):
         chart.post_fifo(Event(signal=signals["VA"], payload=200 + j))
       s.sleep_until(t0 + case["stop_at"] + 3.0 + (case.get("slow_step") or 0.0))
-      info["alive_end"] = chart.thread.is_alive()
+      info["alive_end"] = chart.thread is not None and chart.thread.is_alive()
       # the rest of the system keeps working
       other.post_fifo(Event(signal=signals["VA"], payload=777))
       chart_pub = other
@@ -167,6 +173,10 @@ class C12(Prop):
     if errs:
       name, e, tb = errs[0]
       raise PropertyViolation("thread %s died: %s: %s" % (name, type(e).__name__, e), "C12:thread-error")
+    if info.get("stop_raised"):
+      raise PropertyViolation("stop() of an object %s raised %s" % (
+        "that was never started" if case.get("never_started") else "that was running", info["stop_raised"]),
+        "C12:stop-raises")
     if case["stop_from"] in ("outside", "other_handler"):
       if "stop_ret" not in info:
         raise PropertyViolation("the stop request sent to the other object was never carried out", "C12:setup")
